@@ -349,7 +349,11 @@ func eraseBinding(r *core.Run) {
 	var mu sync.Mutex
 	var cases []*eraseCase
 	var header *eraseCase
-	res := tlcrun.MustHold(r, tlcrun.Options{Module: "TsErase", Config: cfgName, Workers: r.Pick(6, 8), TimeoutSec: r.Pick(600, 1500), HeapGB: 8,
+	var dwg sync.WaitGroup
+	dwg.Add(1)
+	go func() { defer dwg.Done(); designCheck(r) }()
+	defer dwg.Wait()
+	res := tlcrun.MustHold(r, tlcrun.Options{Module: "TsErase", Config: cfgName, Workers: r.Pick(6, 6), TimeoutSec: r.Pick(900, 2400), HeapGB: 8,
 		Files: map[string]string{cfgName: cfgText},
 		OnCase: func(raw []byte) {
 			c := &eraseCase{}
@@ -371,7 +375,6 @@ func eraseBinding(r *core.Run) {
 	}
 	r.Set("tlc_erase", map[string]interface{}{"config": cfgName, "generated": res.Generated, "distinct": res.Distinct, "depth": res.Depth, "variants": len(cases),
 		"invariants": []string{"TypeOK", "EraseOK", "Bounded"}})
-	designCheck(r)
 	evalErase(r, cases, header, nil)
 }
 
@@ -463,28 +466,49 @@ func evalErase(r *core.Run, cases []*eraseCase, header *eraseCase, only *eraseRe
 		r.Case(id, nontrivial)
 		loaders, jsOf := loadersOf(c)
 		mask := c.typeMask()
-		// choice of configurations and renderings
-		var myCfgs []eraseCfg
-		var myModes []string
+		// choice of (configuration, loader, rendering) triples
+		type triple struct {
+			cf     eraseCfg
+			loader string
+			mode   string
+		}
+		var plan []triple
+		var app []eraseCfg
+		for _, cf := range cfgs {
+			if cfgApplies(cf, c) {
+				app = append(app, cf)
+			}
+		}
+		// esbuild keeps import/export clauses on one line iff they were on one line in the source: no line breaks there
+		myModes := modes
+		for _, in := range c.Ins {
+			if in.K == "@impi" || in.K == "@impi2" || in.K == "@cimp" {
+				myModes = []string{modeSpaced, modeTight}
+			}
+		}
+		if len(c.Ins) == 0 {
+			myModes = []string{modeSpaced}
+		}
+		h := hash32(id, fmt.Sprint(r.Seed))
 		switch {
+		case len(loaders) == 0:
 		case only != nil:
-			myCfgs, myModes, loaders = []eraseCfg{only.Cfg}, []string{only.Mode}, []string{only.Loader}
+			plan = []triple{{only.Cfg, only.Loader, only.Mode}}
 		case r.Thorough():
-			for _, cf := range cfgs {
-				if cfgApplies(cf, c) {
-					myCfgs = append(myCfgs, cf)
+			for _, cf := range app {
+				for _, l := range loaders {
+					for _, m := range myModes {
+						plan = append(plan, triple{cf, l, m})
+					}
 				}
 			}
-			myModes = modes
 		default:
-			var app []eraseCfg
-			for _, cf := range cfgs {
-				if cfgApplies(cf, c) {
-					app = append(app, cf)
-				}
+			pick := func(k uint32) eraseCfg { return app[1+int((h/k)%uint32(len(app)-1))] }
+			plan = append(plan, triple{app[0], loaders[0], modeSpaced})
+			plan = append(plan, triple{pick(1), loaders[int((h/3)%uint32(len(loaders)))], myModes[int((h/13)%uint32(len(myModes)))]})
+			if nontrivial || len(c.Ins) == 0 {
+				plan = append(plan, triple{pick(97), loaders[int((h/3+1)%uint32(len(loaders)))], myModes[int((h/13+1)%uint32(len(myModes)))]})
 			}
-			h := hash32(id, fmt.Sprint(r.Seed))
-			myCfgs = []eraseCfg{app[0], app[1+int(h%uint32(len(app)-1))]}
 			if has(c.Pfl, "jsx") { // always one of the jsx option sets
 				var jx []eraseCfg
 				for _, cf := range app {
@@ -492,80 +516,67 @@ func evalErase(r *core.Run, cases []*eraseCase, header *eraseCase, only *eraseRe
 						jx = append(jx, cf)
 					}
 				}
-				myCfgs = append(myCfgs, jx[int((h/7)%uint32(len(jx)))])
-			}
-			myModes = []string{modeSpaced, modes[1+int((h/13)%2)]}
-			if len(loaders) == 2 && !c.Amb && (h/5)%2 == 0 {
-				loaders = loaders[:1]
-			}
-		}
-		// esbuild keeps import/export clauses on one line iff they were on one line in the source: no line breaks there
-		for _, in := range c.Ins {
-			if in.K == "@impi" || in.K == "@impi2" || in.K == "@cimp" {
-				var mm []string
-				for _, m := range myModes {
-					if m != modeNL {
-						mm = append(mm, m)
-					}
-				}
-				myModes = mm
+				plan = append(plan, triple{jx[int((h/7)%uint32(len(jx)))], "tsx", myModes[int((h/11)%uint32(len(myModes)))]})
 			}
 		}
 		var local struct{ pairs, tsjs, bothReject, outs, tsdiff int64 }
-		for _, cf := range myCfgs {
-			for _, loader := range loaders {
-				skOut, skErr := sk.out(r, loader, cf)
-				// --- the converse direction, once per (skeleton, loader, cfg): ts vs js
-				if len(c.Ins) == 0 {
+		seen := map[string]bool{}
+		for _, t := range plan {
+			cf, loader, mode := t.cf, t.loader, t.mode
+			if k := cf.Name + "/" + loader + "/" + mode; seen[k] {
+				continue
+			} else {
+				seen[k] = true
+			}
+			skOut, skErr := sk.out(r, loader, cf)
+			// --- the converse direction, once per (skeleton, loader, cfg): ts vs js
+			if len(c.Ins) == 0 {
+				switch {
+				case has(c.Pfl, "tsdiff"):
+					local.tsdiff++
+				case cf.strict, has(c.Pfl, "field") && !cf.defineTrue:
+				default:
+					jsOut, jsErr := sk.out(r, jsOf[loader], cf)
+					local.tsjs++
+					key := map[string]interface{}{"part": "erase", "check": "ts-vs-js", "fam": c.Fam, "skeleton": sk.text, "config": cf.Name, "loader": loader, "error": skErr}
+					det := map[string]interface{}{"case": c, "config": cf, "loader": loader, "rendering": modeSpaced, "input": sk.text, "ts_output": skOut, "ts_error": skErr, "js_output": jsOut, "js_error": jsErr}
 					switch {
-					case has(c.Pfl, "tsdiff"):
-						local.tsdiff++
-					case cf.strict, has(c.Pfl, "field") && !cf.defineTrue:
-					default:
-						jsOut, jsErr := sk.out(r, jsOf[loader], cf)
-						local.tsjs++
-						key := map[string]interface{}{"part": "erase", "check": "ts-vs-js", "fam": c.Fam, "skeleton": sk.text, "config": cf.Name, "loader": loader, "error": skErr}
-						det := map[string]interface{}{"case": c, "config": cf, "loader": loader, "rendering": modeSpaced, "input": sk.text, "ts_output": skOut, "ts_error": skErr, "js_output": jsOut, "js_error": jsErr}
-						switch {
-						case jsErr != "" && skErr != "":
-							local.bothReject++
-						case jsErr != "":
-							// not valid JavaScript for esbuild: no requirement
-						case skErr != "":
-							r.Violation(key, fmt.Sprintf("valid JavaScript is rejected under the %s loader (accepted under %s): %q: %s", loader, jsOf[loader], sk.text, skErr), det)
-						case jsOut != skOut:
-							r.Violation(key, fmt.Sprintf("JavaScript compiles differently under the %s and %s loaders (config %s): %q\n--- %s\n%s--- %s\n%s", loader, jsOf[loader], cf.Name, sk.text, loader, skOut, jsOf[loader], jsOut), det)
-						}
-					}
-					continue
-				}
-				// --- typed vs skeleton
-				for _, mode := range myModes {
-					text := render(c.Toks, mask, mode)
-					var out, errText string
-					if sk.files != nil {
-						out, errText = cf.build(r, splitFiles(text), "."+loader, nextSeq())
-					} else {
-						out, errText = cf.transform(text, loader)
-					}
-					local.pairs++
-					key := map[string]interface{}{"part": "erase", "check": "typed-vs-skeleton", "fam": c.Fam, "skeleton": sk.text, "ins": c.insLabel(), "config": cf.Name, "loader": loader, "rendering": mode}
-					det := map[string]interface{}{"case": c, "skeleton_case": sk.c, "config": cf, "loader": loader, "rendering": mode, "typed": text, "skeleton": sk.text,
-						"typed_output": out, "typed_error": errText, "skeleton_output": skOut, "skeleton_error": skErr}
-					switch {
-					case skErr != "" && errText != "":
+					case jsErr != "" && skErr != "":
 						local.bothReject++
+					case jsErr != "":
+						// not valid JavaScript for esbuild: no requirement
 					case skErr != "":
-						r.Violation(key, fmt.Sprintf("the untyped program is rejected but its typed version is accepted (%s, %s): %q: %s", loader, cf.Name, sk.text, skErr), det)
-					case errText != "":
-						key["check"] = "typed-rejected"
-						r.Violation(key, fmt.Sprintf("valid TypeScript is rejected (%s, %s, %s): %q: %s", loader, cf.Name, mode, text, errText), det)
-					case out != skOut:
-						r.Violation(key, fmt.Sprintf("type syntax changes the emitted JavaScript (%s, %s, %s):\n  typed:    %q\n  skeleton: %q\n--- typed output\n%s--- skeleton output\n%s", loader, cf.Name, mode, text, sk.text, out, skOut), det)
-					default:
-						local.outs++
+						r.Violation(key, fmt.Sprintf("valid JavaScript is rejected under the %s loader (accepted under %s): %q: %s", loader, jsOf[loader], sk.text, skErr), det)
+					case jsOut != skOut:
+						r.Violation(key, fmt.Sprintf("JavaScript compiles differently under the %s and %s loaders (config %s): %q\n--- %s\n%s--- %s\n%s", loader, jsOf[loader], cf.Name, sk.text, loader, skOut, jsOf[loader], jsOut), det)
 					}
 				}
+				continue
+			}
+			// --- typed vs skeleton
+			text := render(c.Toks, mask, mode)
+			var out, errText string
+			if sk.files != nil {
+				out, errText = cf.build(r, splitFiles(text), "."+loader, nextSeq())
+			} else {
+				out, errText = cf.transform(text, loader)
+			}
+			local.pairs++
+			key := map[string]interface{}{"part": "erase", "check": "typed-vs-skeleton", "fam": c.Fam, "skeleton": sk.text, "ins": c.insLabel(), "config": cf.Name, "loader": loader, "rendering": mode, "error": errText}
+			det := map[string]interface{}{"case": c, "skeleton_case": sk.c, "config": cf, "loader": loader, "rendering": mode, "typed": text, "skeleton": sk.text,
+				"typed_output": out, "typed_error": errText, "skeleton_output": skOut, "skeleton_error": skErr}
+			switch {
+			case skErr != "" && errText != "":
+				local.bothReject++
+			case skErr != "":
+				r.Violation(key, fmt.Sprintf("the untyped program is rejected but its typed version is accepted (%s, %s): %q: %s", loader, cf.Name, sk.text, skErr), det)
+			case errText != "":
+				key["check"] = "typed-rejected"
+				r.Violation(key, fmt.Sprintf("valid TypeScript is rejected (%s, %s, %s): %q: %s", loader, cf.Name, mode, text, errText), det)
+			case out != skOut:
+				r.Violation(key, fmt.Sprintf("type syntax changes the emitted JavaScript (%s, %s, %s):\n  typed:    %q\n  skeleton: %q\n--- typed output\n%s--- skeleton output\n%s", loader, cf.Name, mode, text, sk.text, out, skOut), det)
+			default:
+				local.outs++
 			}
 		}
 		st.Lock()
